@@ -13,21 +13,29 @@ P = "Ural.Props.C18."
 THEOREMS = [P + n for n in [
     "pySearch_spec",
     "site_pattern_spec_partial",
+    "site_pattern_spec_newline",
+    "underPattern_literal",
     "is_facebook_url_spec_partial",
     "is_twitter_url_spec_partial",
     "is_instagram_url_spec_partial",
     "is_telegram_url_spec_partial",
+    "excluded_region_witness",
     "site_case_insensitive",
+    "trieOf_eq",
     "trie_match_spec",
+    "trie_match_spec_clean",
     "is_youtube_url_spec",
     "is_youtube_url_spec_clean",
+    "trie_case_insensitive",
     "shortened_spec",
     "should_resolve_spec",
-    "trie_case_insensitive",
-    "l_prefixed_one_token_path",
-    "shortened_implies_resolve",
     "resolve_monotone",
+    "shortened_implies_resolve",
+    "shortened_implies_resolve_url",
     "bare_domain_not_flagged",
+    "bare_domain_url_not_flagged",
+    "l_path_spec",
+    "l_prefixed_one_token_path",
     "noninterference_sites",
     "noninterference_shorteners",
     "homepage_path_only",
@@ -37,7 +45,7 @@ THEOREMS = [P + n for n in [
     "forms_agree",
     "forms_agree_parsed",
     "hostname_ignores_decoys",
-    "underPattern_literal",
+    "path_ignores_authority",
 ]]
 TABLE_OBLIGATIONS = [P + n for n in [
     "facebook_table_ok",
@@ -55,13 +63,13 @@ RULE = (
     "first dot replaced, in punycode, or with a re.IGNORECASE-only look-alike letter) together with decoy texts "
     "(userinfo, port, path, query, fragment holding site domains). From it the URL rest = [ui@]H[:port]path[?q][#f] "
     "is spelled http://rest, https://rest, rest, //rest and as the SplitResult of the first two, plus three "
-    "baselines (http://H/, http://H+path, http://example.org+path). Every predicate is run on every spelling by "
+    "baselines (http://H/, http://H+path, http://example.org+path, https://u@localhost:8080+path?v=a.pdf#w.html). Every predicate is run on every spelling by "
     "the real code and by the Lean model (which parses the strings itself and receives the real 5-tuples for the "
     "pre-parsed forms) and compared; the oracle checks on the real answers: same answer on all spellings; site "
     "predicates = whole-label membership of H (lower-cased, IDNA-normalised) in the domain family read from the "
     "module's own list / pattern text; shortener predicates = not is_homepage and ('l.'-host with a one-token "
     "path, or membership); shortened => should_resolve; bare shortener domain flagged by neither; "
-    "host-only predicates equal on http://H/, path-only predicates equal on http://example.org+path. "
+    "host-only predicates equal on http://H/, path-only predicates equal on http://example.org+path and on https://u@localhost:8080+path?v=a.pdf#w.html. "
     "Non-trivial = the host is not a plain list domain or some decoy text holds a site domain; distinct = distinct (H, decoys)."
 )
 EXHAUSTIVE = {
@@ -424,7 +432,8 @@ def family(c):
         return list(c["urls"])
     rest = rest_of(c)
     return ["http://" + rest, "https://" + rest, rest, "//" + rest,
-            "http://" + c["host"] + "/", "http://" + c["host"] + c["path"], "http://example.org" + c["path"]]
+            "http://" + c["host"] + "/", "http://" + c["host"] + c["path"], "http://example.org" + c["path"],
+            "https://u@localhost:8080" + c["path"] + "?v=a.pdf#w.html"]
 
 
 def presplit(c):
@@ -630,9 +639,10 @@ def oracle(c):
     for p in ["short", "resolve"]:
         if recs[5][p] != base[p]:
             return "%s: %r on %r but %r on %r (same hostname and path)" % (p, base[p], urls[0], recs[5][p], urls[5])
-    for p in ["home", "html"]:
-        if recs[6][p] != base[p]:
-            return "%s: %r on %r but %r on %r (same path)" % (p, base[p], urls[0], recs[6][p], urls[6])
+    for i in (6, 7):
+        for p in ["home", "html"]:
+            if recs[i][p] != base[p]:
+                return "%s: %r on %r but %r on %r (same path)" % (p, base[p], urls[0], recs[i][p], urls[i])
     # 4. a bare shortener / should-resolve domain is flagged by neither
     if under_keys(host, d["resolve_keys"]):
         for u in ["http://" + c["host"], "http://" + c["host"] + "/", c["host"], "https://" + c["host"] + "?" + (c["q"] or "x=1")]:
